@@ -23,7 +23,9 @@ type g9 struct {
 	Ret   int    // 0: plain Return(); otherwise ReturnValue(Ret + Echo*recv)
 }
 
-func (g g9) String() string { return fmt.Sprintf("%s(n=%d,echo=%d,ret=%d)", g.Shape, g.N, g.Echo, g.Ret) }
+func (g g9) String() string {
+	return fmt.Sprintf("%s(n=%d,echo=%d,ret=%d)", g.Shape, g.N, g.Echo, g.Ret)
+}
 
 // segment is the model's view of what the generator does when resumed after `pos` yields with
 // received value recv (recv is meaningless for pos==0: nothing has been yielded yet).
